@@ -43,7 +43,8 @@ def sim_bounds(entry, c, tier):
         c['tmax'] = 'sym'
     if entry == 'fast_nonMarkov_SIS':
         # 4 infections only on <= 3 nodes from <= 2 initial nodes (path cap otherwise)
-        c['max_infections'] = e if (c['graph'] in ('K1', 'K2', 'K2+K1', 'P3', '2K1', '3K1') and len(c.get('I0') or []) <= 2) else 3
+        small = c['graph'] in ('K1', 'K2', 'K2+K1', 'P3', '2K1', '3K1')
+        c['max_infections'] = e if (small and len(c.get('I0') or []) <= 2) else (3 if (small or len(c.get('I0') or []) <= 1) else 2)
         c['delays_per_pair'] = 1
         c['tmax'] = 'sym'
     if entry in DISC:
